@@ -22,7 +22,9 @@ describe(
     "receiving belief is multiplied by sigma / previous sepset belief, the sepset belief becomes sigma, with the same operation name "
     "throughout a calibration (sum for calibrate, max for max_calibrate), an upward pass from every neighbour and a downward pass "
     "along BFS edges from the root; the convergence test compares both adjacent marginals with the sepset belief; query potentials "
-    "of the sub-tree are belief(child)/sepset(parent, child); the engine restores its model on every exit.",
+    "of the sub-tree are belief(child)/sepset(parent, child); a query re-calibrates unless the tree is calibrated for this operation; "
+    "the clique tree is built only at construction from the full model (a pruned, possibly disconnected network has no junction "
+    "tree because clique trees reject empty sepsets — premise checked); the engine restores its model on every exit.",
     ["numeric calibration (beliefs proportional to marginals)", "tolerance of the convergence test", "agreement of numbers with variable elimination"],
 )
 
